@@ -17,7 +17,8 @@ import (
 //	first-last-slot-merge-order  the memdb merges write buffer and compressed buffer of a first/last field with the
 //	                             operands swapped (flush / window compaction keep the older value for last)
 //	memdb-miss-hides-files       a memory database that knows the metric but none of the filtered series fails the
-//	                             whole family filter, the family's files are not read
+//	                             whole family filter, the family's files are not read; the same the other way round:
+//	                             files that hold the metric but none of the filtered series hide the memory database
 //	write-buffer-end-shrinks     a write of a NEW slot inside the memdb write window sets the buffer's end marker to that
 //	                             slot even when later slots are already present: they become invisible to queries,
 //	                             window compaction and flush (second instance of this model, endBug = true)
@@ -191,7 +192,7 @@ func (m *altModel) eval(q Query) map[string]vset {
 		addPlace := func(cells map[ckey]avals) {
 			keys := make([]ckey, 0, len(cells))
 			for k := range cells {
-				if k.t < start || k.t > end || (q.Cond && k.series != "a") {
+				if k.t < start || k.t > end || (q.Cond != "" && k.series != q.Cond) {
 					continue
 				}
 				keys = append(keys, k)
@@ -232,17 +233,44 @@ func (m *altModel) eval(q Query) map[string]vset {
 			if end < famStart || start > famStart+familyMs-1 {
 				continue
 			}
-			if f.mem != nil && q.Cond && !m.sinceReopen["a"] {
-				// query slot range inside this family
-				lo, hi := int64(0), int64(familyMs/slotMs-1)
-				if start > famStart {
-					lo = (start - famStart) / slotMs
+			// query slot range inside this family
+			lo, hi := int64(0), int64(familyMs/slotMs-1)
+			if start > famStart {
+				lo = (start - famStart) / slotMs
+			}
+			if end < famStart+familyMs-1 {
+				hi = (end - famStart) / slotMs
+			}
+			if f.mem != nil && q.Cond != "" && !m.sinceReopen[q.Cond] && f.memLo <= hi && lo <= f.memHi {
+				continue // memdb-miss-hides-files: the family contributes nothing
+			}
+			if q.Cond != "" {
+				// files that hold the metric in the queried slot range, none of them holds the filtered series:
+				// the file filter answers "not found" and the family's memory databases are dropped with it
+				inRange, holds := 0, 0
+				for _, p := range f.files {
+					plo, phi, has := int64(1<<40), int64(-1), false
+					for k := range p.cells {
+						sl := (k.t % familyMs) / slotMs
+						if sl < plo {
+							plo = sl
+						}
+						if sl > phi {
+							phi = sl
+						}
+						if k.series == q.Cond {
+							has = true
+						}
+					}
+					if phi >= 0 && plo <= hi && lo <= phi {
+						inRange++
+						if has {
+							holds++
+						}
+					}
 				}
-				if end < famStart+familyMs-1 {
-					hi = (end - famStart) / slotMs
-				}
-				if f.memLo <= hi && lo <= f.memHi {
-					continue // memdb-miss-hides-files: the family contributes nothing
+				if inRange > 0 && holds == 0 {
+					continue
 				}
 			}
 			for name, s := range f.mem {
